@@ -1,3 +1,4 @@
+import ElexModel.Gen.C09
 import ElexModel.Core.Units
 import ElexModel.Lemmas.Num
 
@@ -145,5 +146,43 @@ example : category exCfg ⟨1, 0, 100, 89, [5], some 200, 2⟩ = .expected := by
 example : category exCfg ⟨7, 0, 0, 100, [5], some 200, 0⟩ = .blocklisted := by decide +kernel
 example : category exCfg ⟨1, 3, 0, 100, [5], some 200, 0⟩ = .blocklisted := by decide +kernel
 example : category exCfg ⟨1, 0, 0, 100, [5], some 200, 0⟩ = .zeroBaseline := by decide +kernel
+
+end ElexModel.Units
+
+
+/-! ### bridge: `CombinedDataHandler.get_units` / `_get_non_modeled_units` as they are in `/repo/src` on this run -/
+
+namespace ElexModel.Units
+
+/-- the row predicates of the source are those of the model -/
+theorem bridge_reporting (c : Cfg) (r : Row) :
+    isReporting c r = Gen.C09.is_reporting r.pev c.thr ∧ (!isReporting c r) = Gen.C09.is_nonreporting r.pev c.thr := by
+  unfold isReporting Gen.C09.is_reporting Gen.C09.is_nonreporting
+  refine ⟨rfl, ?_⟩
+  by_cases h : c.thr ≤ r.pev
+  · simp [h]
+  · simp [h]; exact lt_of_not_ge h
+
+theorem bridge_strange (c : Cfg) (r : Row) : strange c r = Gen.C09.strange_turnout_factor r.tf c.tfLo c.tfHi := rfl
+
+theorem bridge_blocklisted (c : Cfg) (r : Row) :
+    blocklisted c r = Gen.C09.blocklisted (c.unitBlock.contains r.id) (c.stateBlock.contains r.state) := rfl
+
+/-- the frames are concatenated in the order of the model's precedence (`drop_duplicates` keeps the first), with these category
+    labels; outlier models are gated on more than the minimum number of units and are fitted on the reporting units *without* the
+    blocklisted and zero-baseline ones; the three frames returned; the left merge and the unreporting policy -/
+theorem bridge_get_units_shape :
+    Gen.C09.non_modeled_order = ["units_blocklisted", "units_with_zero_baseline", "units_with_strange_turnout_factor", "units_with_strange_turnout_factor_modeled", "units_with_strange_margin_change_modeled"] ∧
+    Gen.C09.categories = ["units_blocklisted -> non-modeled: blocklisted", "units_with_zero_baseline -> non-modeled: zero baseline", "units_with_strange_turnout_factor -> non-modeled: strange turnout factor", "units_with_strange_turnout_factor_modeled -> non-modeled: strange turnout factor modeled", "units_with_strange_margin_change_modeled -> non-modeled: strange margin change modeled", "reporting_units -> expected", "nonreporting_units -> expected", "unexpected_units -> unexpected"] ∧
+    Gen.C09.non_modeled_combined = ["pd.concat(non_modeled_units_list).reset_index(drop=True).drop_duplicates(subset='geographic_unit_fips')"] ∧
+    Gen.C09.zero_baseline = ["self.data[np.isclose(self.data.baseline_weights, 0)].geographic_unit_fips", "self.data[self.data['geographic_unit_fips'].isin(zero_baseline_units)].copy()"] ∧
+    Gen.C09.outlier_gates = ["fit_turnout_outlier_model and reporting_units.shape[0] > self.n_minimum_for_outlier_detection_model", "'margin' in self.estimands", "fit_margin_outlier_model and reporting_units.shape[0] > self.n_minimum_for_outlier_detection_model"] ∧
+    Gen.C09.outlier_input = ["reporting_units[~reporting_units.geographic_unit_fips.isin(pd.concat([units_blocklisted, units_with_zero_baseline]).geographic_unit_fips)]"] ∧
+    Gen.C09.get_units_sequence = ["reporting_units = self.data[self.data.percent_expected_vote >= percent_reporting_threshold].reset_index(drop=True)", "unexpected_units = self._get_unexpected_units(aggregates)", "reporting_units = reporting_units[~reporting_units.geographic_unit_fips.isin(unexpected_units.geographic_unit_fips)].reset_index(drop=True)", "reporting_units = reporting_units[~reporting_units.geographic_unit_fips.isin(non_modeled_units.geographic_unit_fips)].reset_index(drop=True)", "nonreporting_units = self.data[self.data.percent_expected_vote < percent_reporting_threshold].reset_index(drop=True)", "nonreporting_units = nonreporting_units[~nonreporting_units.geographic_unit_fips.isin(unexpected_units.geographic_unit_fips)].reset_index(drop=True)", "nonreporting_units = nonreporting_units[~nonreporting_units.geographic_unit_fips.isin(non_modeled_units.geographic_unit_fips)].reset_index(drop=True)", "all_unexpected_units = pd.concat([unexpected_units, non_modeled_units]).reset_index(drop=True)"] ∧
+    Gen.C09.get_units_returned = ["(reporting_units, nonreporting_units, all_unexpected_units)"] ∧
+    Gen.C09.unexpected_units = ["self.current_data[~self.current_data['geographic_unit_fips'].isin(expected_geographic_units)].reset_index(drop=True).drop_duplicates(subset='geographic_unit_fips').copy()", "self._get_expected_geographic_unit_fips().tolist()"] ∧
+    Gen.C09.merge = ["preprocessed_data.merge(current_data, how='left', on=['postal_code', 'geographic_unit_fips'])"] ∧
+    Gen.C09.unreporting_policy = ["handle_unreporting == 'drop' : data = data.dropna(axis=0, how='any', subset=result_cols)", "handle_unreporting == 'zero' : indices_with_null_val = data[result_cols].isna().any(axis=1) ; data.update(data[result_cols].fillna(value=0)) ; data.loc[indices_with_null_val, 'percent_expected_vote'] = 0"] :=
+  ⟨rfl, rfl, rfl, rfl, rfl, rfl, rfl, rfl, rfl, rfl, rfl⟩
 
 end ElexModel.Units
